@@ -24,7 +24,11 @@ from typing import Any
 
 from src.analyzers.rust_base import TREE_SITTER_RUST_AVAILABLE
 from src.core.base import BaseLintContext, MultiLanguageLintRule
-from src.core.linter_utils import load_linter_config, with_parsed_python
+from src.core.linter_utils import (
+    load_linter_config,
+    project_relative_path,
+    with_parsed_python,
+)
 from src.core.types import Violation
 from src.linter_config.ignore import get_ignore_parser
 from src.linter_config.pattern_utils import matches_pattern
@@ -77,7 +81,7 @@ class NestingDepthRule(MultiLanguageLintRule):
     def _dispatch_by_language(self, context: BaseLintContext, config: Any) -> list[Violation]:
         """Skip files matching the linter's own ignore list, then dispatch by language."""
         if config.ignore and context.file_path is not None:
-            path_str = Path(context.file_path).as_posix()
+            path_str = project_relative_path(context)  # the path inside the project
             if any(matches_pattern(path_str, p) or p in path_str for p in config.ignore):
                 return []
         return super()._dispatch_by_language(context, config)
